@@ -202,6 +202,15 @@ impl Scenario for C12 {
             }
             p.faults.push("foreign-section-record-between-lines".into());
         }
+        // lines that look like section headers but are not (a comment behind the bracket, a name no format knows, extra
+        // brackets): inside [TimingPoints] they are one more rejected line and nothing else
+        if rng.chance(1, 6) && !p.lines.is_empty() {
+            for _ in 0..1 + rng.below(2) {
+                let at = rng.below(p.lines.len() + 1);
+                p.lines.insert(at, format!("!raw {}", *rng.pick(&["[Events] // text", "[General] //x", "[HitObjects]// y", "[Fonts]", "[Storyboard]", "[[Events]]", "[Events]]", "[HitObjetcs]", "[Genaral]", " [Events]", "[TimingPoints] // again", "[Events]x"])));
+            }
+            p.faults.push("header-look-alike-between-lines".into());
+        }
         // message-style perturbations
         for _ in 0..rng.below(4) {
             match rng.below(4) {
@@ -249,6 +258,8 @@ impl Scenario for C12 {
             for l in &plan.lines {
                 if let Some(m) = l.strip_prefix("!mode ") {
                     let _ = TimingPoints::parse_general(&mut s, &format!("Mode: {m}"));
+                } else if let Some(r) = l.strip_prefix("!raw ") {
+                    let _ = TimingPoints::parse_timing_points(&mut s, r);
                 } else if let Some(r) = l.strip_prefix("!sec ") {
                     let (sec, rec) = r.split_once(' ').unwrap_or((r, ""));
                     let _ = match sec {
@@ -277,6 +288,9 @@ impl Scenario for C12 {
             for l in &plan.lines {
                 if let Some(m) = l.strip_prefix("!mode ") {
                     text.push_str(&format!("[General]\nMode: {m}\n[TimingPoints]\n"));
+                } else if let Some(r) = l.strip_prefix("!raw ") {
+                    text.push_str(r);
+                    text.push('\n');
                 } else if let Some(r) = l.strip_prefix("!sec ") {
                     let (sec, rec) = r.split_once(' ').unwrap_or((r, ""));
                     text.push_str(&format!("[{sec}]\n{rec}\n[TimingPoints]\n"));
@@ -297,7 +311,7 @@ impl Scenario for C12 {
                     _ => None,
                 })
                 .collect();
-            let foreign = plan.lines.iter().any(|l| l.starts_with("!sec "));
+            let foreign = plan.lines.iter().any(|l| l.starts_with("!sec ") || l.starts_with("!raw "));
             if !foreign && routed.log.iter().any(|x| x.0 != "TimingPoints" && x.0 != "General") {
                 // a generated line looked like a section header: outside this scenario
                 return Ok(());
